@@ -108,4 +108,8 @@ HARNESSES += [h for h in _c06.HARNESSES if h.name in ("H06a-rekey", "H06a-two-sa
 from specs import c01 as _c01   # noqa: E402
 
 HARNESSES += [h for h in _c01.HARNESSES if h.name in ("H01-date-us", "H01-dur-us")]
+# a re-save reads every row before it writes it: the row-mapping harness is shared with C06
+from specs import c06 as _c06b   # noqa: E402
+
+HARNESSES += [h for h in _c06b.HARNESSES if h.name == "H06c"]
 PROPERTY = "C02"
